@@ -585,7 +585,21 @@ pub fn midpoint_case(fmt: Fmt, r: &Recipe, lim: Limits, family: &'static str, x:
         5 => {
             let n = tail_len(r.sel[3], r.k[0], lim);
             *d.last_mut().unwrap() -= 1;
-            d.extend(std::iter::repeat(9).take(n));
+            let limit: usize = match fmt {
+                Fmt::F32 => 114,
+                Fmt::F64 => 769,
+            };
+            if r.k[1] % 3 == 0 && d.len() + 1 < limit {
+                // the run of nines ends at (or next to) the digit limit of the slow path, then one to three zeros
+                // and a non-zero digit: the first dropped digit is '0' although the dropped tail is not zero
+                let target = limit - 1 + (r.k[2] % 3) as usize;
+                let fill = target - d.len();
+                d.extend(std::iter::repeat(9).take(fill));
+                d.extend(std::iter::repeat(0).take(1 + ((r.k[2] / 3) % 3) as usize));
+                d.push(1 + (r.k[3] % 9) as u8);
+            } else {
+                d.extend(std::iter::repeat(9).take(n));
+            }
             while let Some(&0) = d.last() {
                 d.pop();
             }
